@@ -765,7 +765,10 @@ def construct_builtin(ex, cname: str, pos, kws, kwrest, st: State, node) -> List
         if not pos:
             return [(st, ex.new_list(st))]
         z = ex.seq_snap(pos[0], st)
-        if ex.hint_of(pos[0], st) in ("list", "tuple"):
+        h_ = ex.hint_of(pos[0], st)
+        if h_ is None and isinstance(pos[0], T):
+            h_ = ex.refine_hint(pos[0], st, ("list", "tuple"))
+        if h_ in ("list", "tuple"):
             return [(st, ex.new_cell(st, ListC(ex.list_concat(st, z, ex.list_term(st, ()), cls="list"))))]
         raise Unsupported("list(x)")
     if cname == "dict":
